@@ -78,6 +78,23 @@ Theorem C08_kmpe_factors_lt1_refuted : exists M,
 Proof. exact kmpe_factors_lt1_refuted. Qed.
 Print Assumptions C08_kmpe_factors_lt1_refuted.
 
+(* is_valid_solution of the code as it is (since /repo 43fc741: error multiplied by the scaling): every
+   satisfying assignment passes the per-edge test, for every tolerance >= 0 *)
+Theorem C08_kmpe_is_valid_accepts : forall (M : kmpe_inst) (a : var -> Q) (tol : Q) (e : PathEnc.edge),
+  sat a (encode_kmpe M) -> e_given (m_err M) = None -> (0 <= tol)%Q ->
+  In e (basic_edges (m_err M)) -> (0 <= scale_of (m_err M) e)%Q ->
+  kmpe_valid_edge_code M a tol e.
+Proof. exact kmpe_is_valid_accepts. Qed.
+Print Assumptions C08_kmpe_is_valid_accepts.
+
+(* documentation of the behaviour before 43fc741 (kmpe_valid_edge_old = unscaled error): it rejected
+   satisfying assignments that the current test accepts *)
+Theorem C08_kmpe_is_valid_old_refuted : exists M a e,
+  sat a (encode_kmpe M) /\ In e (basic_edges (m_err M)) /\ (0 <= scale_of (m_err M) e)%Q /\
+  kmpe_valid_edge_code M a 0%Q e /\ ~ kmpe_valid_edge_old M a 0%Q e.
+Proof. exact kmpe_is_valid_old_refuted. Qed.
+Print Assumptions C08_kmpe_is_valid_old_refuted.
+
 (* non-vacuity: the same instance with factor 1 is satisfiable *)
 Example C08_factor_one_satisfiable : sat (wit_kmpe_a 1%Q 1%Q 4%Q [1%Q]) (encode_kmpe (wit_kmpe 1%Q 1%Q)).
 Proof. exact kmpe_factor_one_satisfiable. Qed.
